@@ -25,11 +25,11 @@ TECHNIQUE = {
     "C11": 'pragma filter in disjunctive normal form (line test, rule-id test, independence of the two tables), pragma-first ordering, compile-before-first-collecting-callback event order, sign-encoded key decoding, per-file reset, table writers, gating (ast + CFG + event-order product) + recogniser/compiler agreement on trailing whitespace and documented closing sequences, every-entry search, sign-aware ordering and arithmetic on the keys',
     "C12": 'no run-time writes to class/module state in rules (including class-level containers mutated through instances), helper ownership, token-mutator and token-container receivers, dispatcher-visible context state, four-way dispatch-table agreement, own-section lookup (ast + call graph) + no rule reads the plugin manager through its context; a scan tokenizes unconditionally',
     "C13": 'state-reset analysis: fields written on the per-file path vs fields killed on every path of the reset entry (rules, helpers, every field of the plugin manager, tokenizer), aliasing resets, dominance of parser-static initialisers (ast + call graph + CFG) + dispatch lists written only by the configuration step; no memoised methods on rules',
-    "C14": 'event-order summaries of the scan/fix passes checked against the life-cycle regular language; provider typestate; reaching definitions in dispatchers; sibling agreement of the tokenizer call sites and of the per-pass context maps + frozen dispatch lists, fix-line emptied before the callback on every fix-mode path, newline mode and whole-file read of the provider',
-    "C15": 'exception-containment/routing over CFG exception edges (may-raise fixpoint), status value-flow, reported=>failed, temp-file release on all exits (pairing), atomic write-back rule, abstract interpretation of the run driver with fault points (thorough tier) + every handler of the run driver reports or re-raises on every path (CFG), staged copy: mode kept, handle closed, user"s file never removed',
-    "C16": 'API->main funnel and option-table agreement, encoding agreement of writers/readers, ParserLogger $-arity check over all call sites, log-level-dependence and stack-trace-flag taint, API results from the presentation object (type-resolved) + sibling agreement of the API methods on catching and handing on the exit code',
+    "C14": 'event-order summaries of the scan/fix passes checked against the life-cycle regular language; provider typestate; reaching definitions in dispatchers; sibling agreement of the tokenizer call sites and of the per-pass context maps + frozen dispatch lists, fix-line emptied before the callback on every fix-mode path, newline mode and whole-file read of the provider, case-normalisation dataflow of the identifiers a rule is registered under',
+    "C15": 'exception-containment/routing over CFG exception edges (may-raise fixpoint), status value-flow, reported=>failed, temp-file release on all exits (pairing), atomic write-back rule, abstract interpretation of the run driver with fault points (thorough tier) + every handler of the run driver reports or re-raises on every path (CFG), staged copy: mode kept, handle closed, user"s file never removed, staging name made by tempfile; strict decoding of document opens',
+    "C16": 'API->main funnel and option-table agreement, encoding agreement of writers/readers, ParserLogger $-arity check over all call sites, log-level-dependence and stack-trace-flag taint, API results from the presentation object (type-resolved) + sibling agreement of the API methods on catching and handing on the exit code; strict decoding of document opens; repeatable API options only accumulate (mutator check over the API class)',
     "C17": 'layer-order event automaton and decision-chain shape, section provenance, validation discipline of initialize_from_config, validator-vs-message range agreement by evaluating closed integer predicates, doc-table vs code-table agreement for every rule (ast + Markdown tables) + documented default-file names vs symbolically evaluated loader arguments, validators test the value as written, pinned table of validated items, handlers of main always end the run',
-    "C18": 'table agreement (enum/scheme dicts/docs/property), who-may-exit, reaching ApplicationResult constants, path enumeration of the precedence chain, configuration-read-after-load order, reported=>failed, driver exploration (thorough tier) + strict and validated read of the configured scheme',
+    "C18": 'table agreement (enum/scheme dicts/docs/property), who-may-exit, reaching ApplicationResult constants, path enumeration of the precedence chain, configuration-read-after-load order, reported=>failed, driver exploration (thorough tier) + strict and validated read of the configured scheme; strict decoding of document opens (undecodable file = system error)',
     "C19": 'sorted(set) escape rule, control dependence of add() on eligibility, canonical-spelling derivation of every added path, error-branch discipline, discovery-flag must-read-before-exit and flag-alone-excludes-processing (CFG), glob trigger/flags vs documentation, argument independence (shared mutable state) + no error decision reads the accumulated selection; walk not pruned, glob expansion not filtered',
     "C20": "flag-gating analysis in both directions: every parser reference to an extension entry symbol is control-dependent on that extension's enabled flag, and every test of a flag (or flag proxy) opens a region that uses the extension (ast guards, inter-procedural closure); flag derivation; doc-table agreement + third-party parser calls under a handler for the library's root exception; whole-name comparison in the disallowed-tag decision",
 }
